@@ -23,6 +23,8 @@ mod c17;
 mod c18;
 mod c19;
 mod c20;
+mod adev;
+mod adevgen;
 mod mac;
 mod oracle;
 mod macgen;
